@@ -1298,3 +1298,184 @@ def c07i(F, R):
         if key not in cur.sites:
             R.bad(key, msg, where)
     R.note(f"cursor analysis: {len(cur.sites)} consume sites (with calling context), {len(outs)} exit states of next(); reviewed summary used for: {sorted(cur.used_summaries)}")
+
+
+@rule("C18", "C18.f.excerpt-gutter-matches-printed-number", floor=2)
+def c18f(F, R):
+    """in the pretty excerpt the blank gutter of the marker line is as wide as the line-number gutter above it: its width is computed from the very value that is printed as the line number (same binding) plus the literal characters printed before the number; otherwise the marker slides off the reported columns on lines 10, 100, ..."""
+    fr = [q for q in F.fns if q.endswith("PrettyPrint::format_region")]
+    if not fr:
+        raise Anchor("PrettyPrint::format_region not found")
+    f = F.fn(fr[0])
+    body = f["hir"]["value"]
+    calls = format_calls_ex(body)
+    tmpl = None
+    for pcs in calls:
+        lits = "".join(p_[1] for p_ in pcs if p_[0] == "lit")
+        if lits.count("|") >= 3 and lits.count("\n") >= 3:
+            tmpl = pcs
+    if tmpl is None:
+        R.bad("template", "UNEXTRACTABLE: the three-line excerpt template was not found in format_region", f["sp"])
+        return
+    # split the pieces into output lines
+    lines, cur = [], []
+    for pc in tmpl:
+        if pc[0] == "lit":
+            parts = pc[1].split("\n")
+            for i, part in enumerate(parts):
+                if i > 0:
+                    lines.append(cur)
+                    cur = []
+                if part:
+                    cur.append(("lit", part))
+        else:
+            cur.append(pc)
+    if cur:
+        lines.append(cur)
+    if len(lines) < 3:
+        R.bad("template", f"UNEXTRACTABLE: excerpt template has {len(lines)} lines", f["sp"])
+        return
+
+    def gutter(ln):
+        """pieces before the first `|` of a line"""
+        out = []
+        for pc in ln:
+            if pc[0] == "lit" and "|" in pc[1]:
+                out.append(("lit", pc[1].split("|")[0]))
+                return out
+            out.append(pc)
+        return None
+    g = [gutter(ln) for ln in lines[:3]]
+    if any(x is None for x in g):
+        R.bad("template", "UNEXTRACTABLE: an excerpt line has no `|` gutter", f["sp"])
+        return
+    num = [pc for pc in g[1] if pc[0] == "arg"]
+    num_lit = sum(len(pc[1]) for pc in g[1] if pc[0] == "lit")
+    lets = {}
+    for st in walk(body, pats=False):
+        if st.get("k") == "Let" and st["pat"].get("k") == "PBinding" and st.get("init"):
+            lets[st["pat"].get("lid")] = st
+    okk = True
+    for gi in (0, 2):
+        args = [pc for pc in g[gi] if pc[0] == "arg"]
+        lit_len = sum(len(pc[1]) for pc in g[gi] if pc[0] == "lit")
+        key = f"gutter|line{gi + 1}"
+        if len(args) != 1 or len(num) != 1:
+            R.bad(key, "UNEXTRACTABLE: gutter is not `<pad> |`", f["sp"])
+            okk = False
+            continue
+        pad = peel(args[0][1]["e"])
+        st = lets.get(pad.get("lid")) if pad.get("k") == "Path" else None
+        rep = peel(st["init"]) if st else None
+        width_e = None
+        if rep is not None and rep.get("k") == "MethodCall" and rep["name"] == "repeat" and lit_value(rep["recv"]) == " ":
+            width_e = peel(rep["args"][0])
+            if width_e.get("k") == "Path" and width_e.get("lid") in lets:
+                width_e = peel(lets[width_e["lid"]]["init"])
+        if width_e is None:
+            R.bad(key, f"UNEXTRACTABLE: the pad `{ekey(pad)}` is not `\" \".repeat(width)`", f["sp"])
+            okk = False
+            continue
+        # width = <X>.to_string().len() + k
+        k_const = 0
+        core = width_e
+        if core.get("k") == "Binary" and core["op"] == "Add":
+            for side, other in ((core["a"], core["b"]), (core["b"], core["a"])):
+                if isinstance(lit_value(other), int):
+                    k_const, core = lit_value(other), peel(side)
+                    break
+        src = None
+        if core.get("k") == "MethodCall" and core["name"] == "len":
+            ts = peel(core["recv"])
+            if ts.get("k") == "MethodCall" and ts["name"] == "to_string":
+                src = peel(ts["recv"])
+        shown = peel(num[0][1]["e"])
+        if src is None or src.get("k") != "Path" or shown.get("k") != "Path":
+            R.bad(key, f"UNEXTRACTABLE: gutter width `{ekey(width_e)}`", f["sp"])
+            okk = False
+            continue
+        same = src.get("lid") is not None and src.get("lid") == shown.get("lid")
+        # total widths: pad + literal == literal-before-number + digits(number)
+        if same and k_const + lit_len == num_lit:
+            R.ok(key, detail=f"gutter of excerpt line {gi + 1}: {k_const} + digits({src['res']}) spaces; the number line prints {num_lit} character(s) + {shown['res']} (same binding)")
+        elif not same:
+            R.bad(key, f"the blank gutter of excerpt line {gi + 1} is sized from `{src.get('res')}` as bound at {src.get('sp')}, but the number printed above it is another binding of `{shown.get('res')}` (e.g. the 0-based line vs the 1-based one): on lines 10, 100, 1000 the marker is one column left of the reported text", loc(src))
+        else:
+            R.bad(key, f"the blank gutter of excerpt line {gi + 1} is {k_const}+digits wide (+{lit_len} literal) while the number line prints {num_lit} character(s) before the number: the marker is shifted", loc(width_e))
+
+
+@rule("C06", "C06.e.end-of-input-ends-token-loops", floor=3)
+@rule("C07", "C07.k.end-of-input-ends-token-loops", floor=3)
+def c07k(F, R):
+    """at the end of the input the token readers answer `Ok` at most once per statement (a synthetic end-of-statement token guarded by a flag it sets), a look-ahead is never passed through `?`, and every `loop` of the decoder that reads tokens leaves on a reader error: otherwise an unterminated `.macro` / a value list at the end of a file hangs or is dropped"""
+    # (1) readers: a `None` arm (lexer exhausted) that produces Ok must be single-shot
+    for q, g in sorted(F.fns.items()):
+        if "hir" not in g or short(q) not in ("get_any", "peek_any") or "AnnotatedLexer" not in q:
+            continue
+        body = g["hir"]["value"]
+        for m in find_matches(body):
+            sc = peel(m["scrut"])
+            if not (sc.get("k") == "MethodCall" and sc["name"] in ("next", "peek") and ekey(sc["recv"]).endswith(".lexer")):
+                continue
+            for a in m["arms"]:
+                if pat_variants(a["pat"]) != [("path", "core::option::Option::None")]:
+                    continue
+                oks = [c for c in walk(a["body"], pats=False) if c.get("k") == "Call" and short(callee_of(c) or "") == "Ok" and (callee_of(c) or "").startswith("core::result")]
+                if not oks:
+                    R.ok(f"{short(q)}|exhausted", detail=f"{short(q)}: an exhausted lexer is an error", trivial=True)
+                    continue
+                gd = a.get("guard")
+                flags = {f_["name"] for f_ in walk(gd or {}, pats=False) if f_.get("k") == "Field" and (f_.get("ty") or "") == "bool" and ekey(f_["e"]) == "self"}
+                negs = {f_["name"] for u in walk(gd or {}, pats=False) if u.get("k") == "Unary" and u["op"] == "Not" for f_ in walk(u, pats=False) if f_.get("k") == "Field" and ekey(f_["e"]) == "self"}
+                sets = {ekey(x["l"]).split(".")[-1] for x in walk(a["body"], pats=False) if x.get("k") == "Assign" and ekey(x["l"]).startswith("self.") and lit_value(x["r"]) is True}
+                once = flags & negs & sets
+                if once:
+                    R.ok(f"{short(q)}|exhausted-ok-once", detail=f"{short(q)}: at end of input answers Ok only while `!self.{sorted(once)[0]}`, and sets it", where=loc(a))
+                else:
+                    R.bad(f"{short(q)}|exhausted-ok-once", f"{short(q)} can answer `Ok(..)` at the end of the input without a flag that limits it to once: a decoder loop that skips such tokens (`.macro` without `.end_macro`, a value list) never ends", loc(a))
+    # (2)+(3) decoder loops and look-aheads
+    p = F.method(PNODE, "try_from", trait_ref=r"TryFrom<&mut core::iter::adapters::peekable::Peekable")
+    f = F.fn(p)
+    body = f["hir"]["value"]
+    pm = parent_map(body)
+    n_peek = 0
+    for mcall in walk(body, pats=False):
+        if mcall.get("k") == "MethodCall" and mcall["name"] == "peek_any":
+            n_peek += 1
+            par = pm.get(id(mcall))
+            gp = pm.get(id(par)) if par else None
+            tried = par is not None and par.get("k") == "Call" and short(callee_of(par) or declared_callee(par) or "") == "branch" and gp is not None and gp.get("k") == "Match" and gp.get("src") == "TryDesugar"
+            key = f"peek_any|{n_peek}"
+            if tried:
+                R.bad("peek_any|question-mark", "a look-ahead `peek_any()?` aborts the statement when the input ends there: a value list or an optional operand at the very end of a file drops the whole statement without a diagnostic", loc(mcall))
+            else:
+                R.ok(key, detail="the look-ahead result is inspected, not propagated", where=loc(mcall))
+    n_loop = 0
+    for lp in walk(body, pats=False):
+        if lp.get("k") != "Loop":
+            continue
+        reads = [m for m in walk(lp["body"], pats=False) if m.get("k") == "MethodCall" and m["name"] in ("get_any", "peek_any", "get_reg", "get_imm", "get_label", "get_string", "get_csrimm")]
+        if not reads:
+            continue
+        n_loop += 1
+        # an exit that depends on a reader failing: `?` on a read, `let Ok(..) = read else { break }`, or a match arm on Err(..) that breaks/returns
+        exits = False
+        for m in reads:
+            x = m
+            for _ in range(4):
+                x = pm.get(id(x))
+                if x is None:
+                    break
+                if x.get("k") == "Match" and x.get("src") == "TryDesugar":
+                    exits = True
+                if x.get("k") == "Let" and x.get("els") is not None and any(y.get("k") in ("Break", "Ret") for y in walk(x["els"], pats=False)):
+                    exits = True
+                if x.get("k") == "Match" and x.get("src") != "TryDesugar":
+                    for a in x["arms"]:
+                        if any(v and v.endswith("Result::Err") for k_, v in pat_variants(a["pat"]) if k_ == "path") and any(y.get("k") in ("Break", "Ret") for y in walk(a["body"], pats=False)):
+                            exits = True
+        key = f"loop|{n_loop}"
+        if exits:
+            R.ok(key, detail="the loop is left when a token read fails (end of input)", where=loc(lp))
+        else:
+            R.bad(key, "a decoder loop reads tokens but has no exit on a failing read: it cannot end at the end of the input", loc(lp))
